@@ -109,3 +109,51 @@ Fixpoint lockstep (M : emod) (nm : names) (c : cfg) (k : nat) (h : Sem.state) (s
       | Err _ => Some k
       end
   end.
+
+(* ---- the property's own wording, read off the circuit alone ----
+   An abstract sequence (oldest first) is maintained from the acknowledgements only: an Ack that rises for a
+   receiver is a read, which must return the element the discipline prescribes and removes it; an Ack that
+   rises for a sender is a write of the data on its wires in that cycle.  Codes: 2 a read acknowledged when
+   empty, 3 a read returned another element, 4 a write acknowledged when full, 5 sp is not the number of
+   stored elements, 9 the circuit cannot be executed. *)
+Definition rose (h h' : Sem.state) (x : ident) : bool := (get h x =? 0) && negb (get h' x =? 0).
+
+Fixpoint do_reads (mt : memtype) (h h' : Sem.state) (racks rdatas : list ident) (q : list N) : list N + N :=
+  match racks, rdatas with
+  | a :: racks', d :: rdatas' =>
+      if rose h h' a then
+        match mt, q with
+        | _, [] => inr 2
+        | FIFO, x :: q' => if get h' d =? x then do_reads mt h h' racks' rdatas' q' else inr 3
+        | LIFO, _ => if get h' d =? last q 0 then do_reads mt h h' racks' rdatas' (removelast q) else inr 3
+        end
+      else do_reads mt h h' racks' rdatas' q
+  | _, _ => inl q
+  end.
+
+Fixpoint do_writes (depth : nat) (h h' : Sem.state) (sacks : list ident) (datas : list N) (q : list N) : list N + N :=
+  match sacks, datas with
+  | a :: sacks', d :: datas' =>
+      if rose h h' a then (if Nat.ltb (length q) depth then do_writes depth h h' sacks' datas' (q ++ [d]) else inr 4)
+      else do_writes depth h h' sacks' datas' q
+  | _, _ => inl q
+  end.
+
+Fixpoint discipline (M : emod) (nm : names) (c : cfg) (k : nat) (h : Sem.state) (q : list N) (ins : list inp) : option (nat * N) :=
+  match ins with
+  | [] => None
+  | i :: rest =>
+      match cycle M (sem_inputs nm i) h with
+      | Err _ => Some (k, 9)
+      | Ok h' =>
+          if i_reset i then discipline M nm c (S k) h' [] rest
+          else match do_reads (c_mt c) h h' (n_rack nm) (n_rdata nm) q with
+               | inr e => Some (k, e)
+               | inl q1 =>
+                   match do_writes (c_depth c) h h' (n_sack nm) (map (msk (c_dsize c)) (i_wdata i)) q1 with
+                   | inr e => Some (k, e)
+                   | inl q2 => if get h' (n_sp nm) =? N.of_nat (length q2) then discipline M nm c (S k) h' q2 rest else Some (k, 5)
+                   end
+               end
+      end
+  end.
